@@ -508,6 +508,9 @@ pub(crate) fn solve_expression(
                         {
                             x > y as i64
                         }
+                        // NOTE: An unsigned value above i64::MAX is greater than every signed value
+                        (Value::UInt(_), BoolSym::GreaterThan, Value::Int(_)) => true,
+                        (Value::Int(_), BoolSym::GreaterThan, Value::UInt(_)) => false,
                         (_, BoolSym::GreaterThan, _) => false,
                         (Value::Float(x), BoolSym::GreaterThanOrEqual, Value::Float(y)) => x >= y,
                         (Value::Int(x), BoolSym::GreaterThanOrEqual, Value::Int(y)) => x >= y,
@@ -522,6 +525,9 @@ pub(crate) fn solve_expression(
                         {
                             x >= y as i64
                         }
+                        // NOTE: An unsigned value above i64::MAX is greater than every signed value
+                        (Value::UInt(_), BoolSym::GreaterThanOrEqual, Value::Int(_)) => true,
+                        (Value::Int(_), BoolSym::GreaterThanOrEqual, Value::UInt(_)) => false,
                         (_, BoolSym::GreaterThanOrEqual, _) => false,
                         (Value::Float(x), BoolSym::LessThan, Value::Float(y)) => x < y,
                         (Value::Int(x), BoolSym::LessThan, Value::Int(y)) => x < y,
@@ -536,6 +542,9 @@ pub(crate) fn solve_expression(
                         {
                             x < y as i64
                         }
+                        // NOTE: An unsigned value above i64::MAX is greater than every signed value
+                        (Value::UInt(_), BoolSym::LessThan, Value::Int(_)) => false,
+                        (Value::Int(_), BoolSym::LessThan, Value::UInt(_)) => true,
                         (_, BoolSym::LessThan, _) => false,
                         (Value::Float(x), BoolSym::LessThanOrEqual, Value::Float(y)) => x <= y,
                         (Value::Int(x), BoolSym::LessThanOrEqual, Value::Int(y)) => x <= y,
@@ -550,6 +559,9 @@ pub(crate) fn solve_expression(
                         {
                             x <= y as i64
                         }
+                        // NOTE: An unsigned value above i64::MAX is greater than every signed value
+                        (Value::UInt(_), BoolSym::LessThanOrEqual, Value::Int(_)) => false,
+                        (Value::Int(_), BoolSym::LessThanOrEqual, Value::UInt(_)) => true,
                         (_, BoolSym::LessThanOrEqual, _) => false,
                         _ => unreachable!(),
                     };
